@@ -20,7 +20,8 @@ META = {
              'and - when all values are integral - int64 representations (index/label outputs identical, floats within 8 ulp + '
              'cancellation floor). One "link" case per run resolves every name, module attribute, intra-package call signature, '
              'tuple-unpacking arity and local import of every live function object; a RAISE monitor records NameError / '
-             'UnboundLocalError / module AttributeError / arity TypeError raised in package frames during all of it; one "reach" '
+             'UnboundLocalError / AttributeError / arity and not-callable TypeError raised in package frames during all of it; a probe on '
+             'convex_hull._ccw counts the evaluations that wrapped in int64 (attribution of the open finding F-2); one "reach" '
              'case calls every public function once under a line-coverage monitor. distinct = digest(entry point, values); '
              'non-trivial = call with >= 1 array argument whose result is non-empty'),
     'require': {'purity': 8000, 'determinism': 8000, 'representation': 12000, 'link:functions': 100, 'nontrivial': 6000},
